@@ -1,6 +1,6 @@
 """C17 - requested TLS is never silently downgraded."""
 from facts import walk, callee_of, call_args, loc
-import hirq, anchors, absx
+import hirq, anchors, absx, sem
 
 EXPLANATION = ("All paths of the TCP connection constructor are enumerated (path-sensitive abstract evaluation of its typed HIR): W1 every "
                "path that returns Ok for an `ldaps` URL, or for an `ldap` URL with StartTLS requested, has obtained Ok from the TLS "
@@ -9,9 +9,12 @@ EXPLANATION = ("All paths of the TCP connection constructor are enumerated (path
                "before the handshake - extended(StartTLS) - the driver turn's result and `success()?` of the response are both required "
                "(Ok) before into_parts / the handshake, `ldaps` paths issue no LDAP operation before the handshake, and the handle is not "
                "cloned; W3 the TLS transport is framed with a fresh Framed built from parts.io and parts.codec only - Framed::from_parts, "
-               "which would keep cleartext bytes read before the handshake, is never called; W4 certificate verification is disabled only "
-               "on the path where settings.no_tls_verify is true, a caller-supplied connector is used as given, and the handshake is given "
-               "the URL's host name. Not decided: what native-tls / rustls verify (trusted); server behaviours as runtime events.")
+               "which would keep cleartext bytes read before the handshake, is never called; W4 the request to skip certificate verification is the public call set_no_tls_verify(true): the private field it writes and "
+               "the value that stands for the request are read from the setter (not from a name); every body that builds a settings value "
+               "(new, the Default impl - derived or hand-written -, Clone) leaves that field at 'not requested'; the default connector / "
+               "configuration disables verification exactly on the paths that found the request in the field, is built from the "
+               "connection's own settings, a caller-supplied connector is used as given, and the handshake is given the URL's host name; "
+               "W5/W7/W8 the settings' Clone keeps, and the starttls() getter returns, what the setters recorded (fields anchored by role). Not decided: what native-tls / rustls verify (trusted); server behaviours as runtime events.")
 TRUSTED = ['native-tls / rustls certificate and host name verification', 'tokio_util Framed::into_parts / Decoder::framed']
 UNDECIDED = ['TLS library behaviour', 'server behaviour at run time']
 ASSUMPTIONS = []
@@ -44,9 +47,13 @@ def run(ctx):
         ctx.fail('anchor-missing', NT, '', 'TCP constructor not found'); return
     B = hirq.Body(f, f.body(NT))
     ctx.analysed['bodies'].add(NT)
-    outs = absx.Interp(f, B, unroll=1).run(root=B.root['body'] if B.root['k'] == 'Closure' else B.root)
+    R = anchors.ConnSettings(f)
+    outs = absx.Interp(f, B, unroll=1, combinators=True).run(root=B.root['body'] if B.root['k'] == 'Closure' else B.root)
     oks = [o for o in outs if o.kind in ('val', 'ret') and o.val[0] == 'ctor' and o.val[1] == 'Ok']
     ctx.floor('W1', 'Ok-returning paths of the TCP constructor', len(oks), 3)
+    urls = sem.params_of_type(f, B, lambda t: t == 'url::Url')
+    ctx.add('W4.url-parameter', NT, loc(B.root), len(urls) == 1, 'the TCP constructor has no single parameter of type &Url: anchor lost')
+    URL = ('param', urls[0] if urls else 'url')
     seen = set()
     for o in oks:
         sch, stls = scheme_of(o), starttls_of(o)
@@ -97,7 +104,7 @@ def run(ctx):
                         return ('call', t[1], tuple(strip_site(x) for x in t[2]), None)
                     return tuple(strip_site(x) for x in t)
                 return t
-            hs = ('call', 'url::Url::host_str', (('param', 'url'),), None)
+            hs = ('call', 'url::Url::host_str', (URL,), None)
             has_host = any(strip_site(a2) == ('is', hs, 'Some') and t for a2, t in o.st.pc) and \
                 any(a2[0] == 'call' and a2[1].endswith('::is_empty') and strip_site(a2[2][0]) == ('variant', hs, 'Some', 0) and not t for a2, t in o.st.pc)
             host_ok = strip_site(a[1]) == (('variant', hs, 'Some', 0) if has_host else ('lit', 'localhost'))
@@ -124,69 +131,156 @@ def run(ctx):
     ctx.add('W3.only-io-and-codec', 'parts', loc(B.root), parts_fields <= {'io', 'codec'}, 'fields of the old transport used: %s' % sorted(parts_fields))
 
     # ---- W4 verification only disabled on request
-    for fn, danger in (('ldap3::conn::LdapConnAsync::create_connector', 'danger_accept_invalid_certs'), ('ldap3::conn::LdapConnAsync::create_config', 'set_certificate_verifier')):
+    check_verification(ctx, f, R)
+    check_settings_copy(ctx, f, R)
+    check_settings_getters(ctx, f, R)
+    check_other_constructors(ctx, f, R)
+
+
+DANGER = {'ldap3::conn::LdapConnAsync::create_connector': 'danger_accept_invalid_certs', 'ldap3::conn::LdapConnAsync::create_config': 'set_certificate_verifier'}
+TS = 'ldap3::conn::LdapConnAsync::create_tls_stream'
+IS_SETTINGS = lambda t: t == anchors.ConnSettings.ST
+
+def check_verification(ctx, f, R):
+    """W4, certificate verification.  The request "do not verify" is the public call `set_no_tls_verify(true)`; the private field
+    it writes and the value that stands for the request are read from the setter (anchors.ConnSettings), not from a name.
+      (a) the setter records the request: it stores the two distinct boolean constants for true / false;
+      (b) every way to obtain a settings value without calling the setter - every body that builds the struct (`new`, the `Default`
+          impl whether derived or written by hand, ...) - yields "not requested" in that field (or copies another settings' field);
+      (c) the default connector / configuration switches verification off exactly on the paths that found the request in the field;
+      (d) it is built from the connection's own settings, and a caller-supplied connector is used as given."""
+    F = R.field.get('verify-off')
+    ctx.add('W4.verification-request-recorded', R.setter.get('verify-off', 'set_no_tls_verify'), '', F is not None and R.polarity_ok('verify-off'),
+            'set_no_tls_verify(v) does not record v in a field of the settings (it stores %s for true, %s for false): the request cannot be told from its absence' % (
+                tuple(absx.fmt(R.stored.get('verify-off', {}).get(v, ('unk',))) for v in (True, False))))
+    if F is None or not R.polarity_ok('verify-off'):
+        return
+    on_value = R.stored['verify-off'][False]          # what the field holds when verification is to be performed
+    # ---- (b) initial value on every constructor path
+    n = 0
+    for p in sorted(f.hir):
+        rec = f.hir[p]
+        if '{' in p or not any(nd['k'] == 'Struct' and (nd.get('ctor_of') or nd.get('def') or '') == R.ST for nd, _c in walk(rec['body'])):
+            continue
+        B = hirq.Body(f, f.body(p))
+        ctx.analysed['bodies'].add(p)
+        sparams = [('param', x) for x in sem.params_of_type(f, B, IS_SETTINGS)]
+        def copied(x):
+            while x and x[0] == 'call' and x[1].rsplit('::', 1)[-1] in ('clone', 'to_owned') and x[2]:
+                x = x[2][0]
+            return x[0] == 'field' and x[2] == F and x[1] in sparams
+        outs = absx.Interp(f, B, combinators=True, summaries=[sem.primitive_defaults], inline=lambda c: c.endswith('core::default::Default>::default')).run(
+            root=B.root['body'] if B.root['k'] == 'Closure' else B.root)
+        built = 0
+        for o in outs:
+            if o.kind == 'div':
+                continue
+            where = [o.val] + [x for e in o.st.ev if e[0] in ('call', 'store') for x in (e[2] if e[0] == 'call' else (e[2],))] + list(o.st.heap.values())
+            structs = []
+            for t in where:
+                for x in absx.leaves(t, lambda x: x[0] == 'struct' and x[1] == hirq.short_def(R.ST)):
+                    if x not in structs:
+                        structs.append(x)
+            # a struct that only serves as the `..base` of another one is judged through the outer one
+            bases = [y[3] for y in structs if y[3] is not None]
+            for x in structs:
+                if x in bases:
+                    continue
+                built += 1
+                n += 1
+                v = absx.field_term(x, F)
+                ok = v == on_value or copied(v)
+                ctx.add('W4.verification-disabled-only-on-request', '%s|initial value' % p.replace(R.ST, 'LdapConnSettings'), loc(B.root), ok,
+                        'settings obtained from %s have certificate verification disabled although nobody asked: the field `%s` starts as %s, which is what set_no_tls_verify(true) stores (verification is on for %s)' % (
+                            p.replace(R.ST, 'LdapConnSettings'), F, absx.fmt(v)[:40], absx.fmt(on_value)))
+        ctx.add('W4.settings-constructor-readable', p, loc(B.root), built > 0, 'a body that builds the settings struct could not be followed to the value it builds')
+    ctx.floor('W4.initial', 'settings values built (constructor paths: new, Default, Clone)', n, 3)
+    # ---- (c) the default connector / configuration
+    flagged = {}          # builder fn -> ('settings', param) | ('bool', param idx): where it reads the request from
+    for fn, danger in DANGER.items():
         if fn not in f.hir:
             continue
         Cb = hirq.Body(f, f.body(fn))
         ctx.analysed['bodies'].add(fn)
+        sparams = sem.params_of_type(f, Cb, IS_SETTINGS)
+        bparams = sem.params_of_type(f, Cb, lambda t: t == 'bool')
         n = 0
-        is_flag = lambda a: a == ('field', ('param', 'settings'), 'no_tls_verify') or a == ('param', 'no_tls_verify')
         for o in absx.Interp(f, Cb, combinators=True).run():
-            nv = next((t for a, t in o.st.pc if is_flag(a)), None)
-            d = calls(o, danger)
             if o.kind == 'div':
                 continue
             n += 1
-            ok = (bool(d) == (nv is True)) and nv is not None
+            asked = None
+            for a, t in o.st.pc:
+                if a[0] == 'field' and a[2] == F and a[1][0] == 'param' and a[1][1] in sparams:
+                    asked = R.requested('verify-off', t)
+                    flagged[fn] = ('settings', a[1][1])
+                elif a[0] == 'param' and a[1] in bparams:
+                    # the builder is handed the request as a boolean: (d) requires the caller to pass the field (in this sense)
+                    asked = t
+                    flagged[fn] = ('bool', next(d['idx'] for d in Cb.defs.values() if d['kind'] == 'param' and d['name'] == a[1]))
+            d = calls(o, danger)
+            ok = asked is not None and bool(d) == asked
             if d and danger == 'danger_accept_invalid_certs':
                 ok = ok and d[0][1][2][1] == ('lit', True)
-            ctx.add('W4.verification-disabled-only-on-request', '%s|no_tls_verify=%s' % (fn.split('::')[-1], nv), loc(Cb.root), ok,
-                    'certificate verification is %s although no_tls_verify is %s' % ('disabled' if d else 'kept', nv))
+            ctx.add('W4.verification-disabled-only-on-request', '%s|disabling requested=%s' % (fn.split('::')[-1], asked), loc(Cb.root), ok,
+                    'certificate verification is %s on a path of %s where set_no_tls_verify(true) %s' % (
+                        'disabled' if d else 'kept', fn.split('::')[-1], 'was not tested for' if asked is None else 'was called' if asked else 'was not called'))
         ctx.floor('W4', fn.split('::')[-1] + ' paths', n, 2)
-    check_settings_copy(ctx, f)
-    check_settings_getters(ctx, f)
-    check_other_constructors(ctx, f)
-    ts = 'ldap3::conn::LdapConnAsync::create_tls_stream'
-    if ts in f.hir:
-        T = hirq.Body(f, f.body(ts))
-        ctx.analysed['bodies'].add(ts)
+    # ---- (d) the handshake helper
+    if TS in f.hir:
+        T = hirq.Body(f, f.body(TS))
+        ctx.analysed['bodies'].add(TS)
+        sparams = [('param', x) for x in sem.params_of_type(f, T, IS_SETTINGS)]
+        hosts = [('param', x) for x in sem.params_of_type(f, T, lambda t: t == 'str')]
+        streams = [('param', x) for x in sem.params_of_type(f, T, lambda t: t.endswith('::TcpStream'))]
+        ctx.add('W4.handshake-helper-signature', TS, loc(T.root), len(sparams) == 1 and len(hosts) == 1 and len(streams) == 1,
+                'the handshake helper is not (settings, host name: &str, stream: TcpStream): anchor lost')
+        CF = R.field.get('connector')
+        own_flag = lambda x: x[0] == 'field' and x[2] == F and x[1] in sparams
+        given = lambda x: x[0] == 'field' and x[2] == CF and x[1] in sparams
         outs = absx.Interp(f, T, combinators=True).run(root=T.root['body'] if T.root['k'] == 'Closure' else T.root)
         n = 0
         for o in outs:
+            pcs = [(sem.untake(a), t) for a, t in o.st.pc]
             # the default connector is built from the caller's own verification setting
-            for dc in [e for e in o.st.ev if e[0] == 'call' and (e[1].endswith('create_connector') or e[1].endswith('create_config'))]:
-                okf = any(a == ('param', 'settings') or a == ('field', ('param', 'settings'), 'no_tls_verify') or
-                          (a[0] == 'field' and a[2] == 'no_tls_verify' and absx.leaves(a, lambda x: x == ('param', 'settings'))) for a in dc[2])
-                ctx.add('W4.default-connector-from-own-settings', dc[1].split('::')[-1], loc(dc[3]), okf, 'the default connector is not built from this connection\'s settings')
+            for dc in [e for e in o.st.ev if e[0] == 'call' and e[1] in DANGER]:
+                how = flagged.get(dc[1])
+                if how is None:
+                    okf = False
+                elif how[0] == 'settings':
+                    okf = any(a in sparams for a in dc[2])
+                else:
+                    okf = how[1] < len(dc[2]) and own_flag(dc[2][how[1]]) and R.requested('verify-off', True)
+                    if how[1] < len(dc[2]) and dc[2][how[1]][0] == 'not' and own_flag(dc[2][how[1]][1]):
+                        okf = R.requested('verify-off', False)
+                ctx.add('W4.default-connector-from-own-settings', dc[1].split('::')[-1], loc(dc[3]), okf, 'the default connector is not built from this connection\'s settings (its verification request)')
             con = calls(o, 'TlsConnector::connect')
             if not con:
                 continue
             n += 1
-            custom = next((t for a, t in o.st.pc if a[0] == 'is' and a[2] == 'Some' and a[1][0] == 'field' and a[1][2] in ('connector', 'config')), None)
-            a = con[0][1][2]
+            custom = absx.pc_variant(pcs, given, 'Some')
+            a = tuple(sem.untake(x) for x in con[0][1][2])
             src = a[0]
-            uses_given = absx.leaves(src, lambda x: x[0] == 'variant' and x[2] == 'Some' and x[1][0] == 'field' and x[1][2] in ('connector', 'config')) != []
-            uses_default = absx.leaves(src, lambda x: x[0] == 'call' and (x[1].endswith('create_connector') or x[1].endswith('create_config'))) != []
+            uses_given = absx.leaves(src, lambda x: x[0] == 'variant' and x[2] == 'Some' and given(x[1])) != []
+            uses_default = absx.leaves(src, lambda x: x[0] == 'call' and x[1] in DANGER) != []
             ok = (custom is True and uses_given and not uses_default) or (custom is False and uses_default and not uses_given)
             ctx.add('W4.connector-choice', 'custom=%s' % custom, loc(T.root), ok, 'a caller-supplied connector/config must be used as given, the default one otherwise')
             host = a[1]
-            okh = absx.leaves(host, lambda x: x == ('param', 'hostname')) != [] or host == ('param', 'hostname')
-            if ts and 'rustls' in ctx.cfg:
-                okh = okh
-            ctx.add('W4.connect-arguments', 'custom=%s' % custom, loc(T.root), okh and a[-1] == ('param', 'stream'), 'the handshake is not run for (hostname, stream) as given')
+            okh = host in hosts or any(absx.leaves(host, lambda x, h=h: x == h) for h in hosts)
+            ctx.add('W4.connect-arguments', 'custom=%s' % custom, loc(T.root), okh and a[-1] in streams, 'the handshake is not run for (hostname, stream) as given')
         ctx.floor('W4', 'create_tls_stream connect paths', n, 2)
 
 
-def check_settings_copy(ctx, f):
+def check_settings_copy(ctx, f, R):
     """W5 - a copy of the connection settings asks for the same protection as the original: if the settings type can be cloned
     (derived or hand-written), the clone's starttls / no_tls_verify / connector / config are the original's on every path of
     `Clone::clone`.  (Settings are routinely prepared once and cloned per connection; a clone that forgets `starttls` opens a
     cleartext session although StartTLS was requested.)"""
     st = 'ldap3::conn::LdapConnSettings'
     p = '<%s as core::clone::Clone>::clone' % st
-    fields = [fl['name'] for v in (f.items.get(st) or {}).get('variants', []) for fl in v['fields']]
-    tls_fields = [x for x in ('starttls', 'no_tls_verify', 'connector', 'config') if x in fields]
-    ctx.add('W5.settings-fields', st, '', 'starttls' in fields, 'the settings struct has no starttls field: anchor lost')
+    # the TLS-relevant fields, each anchored as the field its public setter writes
+    tls_fields = [R.field[r] for r in ('starttls', 'verify-off', 'connector') if r in R.field]
+    ctx.add('W5.settings-fields', st, '', 'starttls' in R.field and 'verify-off' in R.field, 'the settings struct has no field written by set_starttls / set_no_tls_verify: anchor lost')
     if p not in f.hir:
         ctx.ok('W5.settings-copy-keeps-tls-request', 'not Clone', '', 'the settings type cannot be cloned in this configuration')
         return
@@ -212,44 +306,45 @@ def check_settings_copy(ctx, f):
     ctx.floor('W5', 'paths of the settings\' Clone::clone', n, 1)
 
 
-def check_settings_getters(ctx, f):
-    """W7: the constructors read what was requested through the settings' getters; a getter that does not return its field turns the
-    request off (or on) for every caller.  In every configuration in which the settings struct has the field, each path of the getter
-    of the same name returns that field of `self` (the always-false fallback exists only where no TLS backend is compiled in - and
-    there the struct has no such field).  This is what ties `set_starttls(true)` to the scheme decision of the TCP constructor in
-    both TLS back ends (the cfg attributes on the getter pair are not visible in any one configuration)."""
-    st = 'ldap3::conn::LdapConnSettings'
-    fields = [fl['name'] for v in (f.items.get(st) or {}).get('variants', []) for fl in v['fields']]
+def check_settings_getters(ctx, f, R):
+    """W7: the constructors read what was requested through the settings' public getter; a getter that does not return what the
+    setter recorded turns the request off (or on) for every caller.  In every configuration in which the setter exists, each path of
+    `LdapConnSettings::starttls()` returns "set_starttls(true) was called" - the field the setter writes, in the setter's polarity
+    (the always-false fallback exists only where no TLS backend is compiled in - and there there is no setter).  This is what ties
+    `set_starttls(true)` to the scheme decision of the TCP constructor in both TLS back ends (the cfg attributes on the getter pair
+    are not visible in any one configuration)."""
+    st = R.ST
     SELF = ('param', 'self')
     n = 0
-    for name in ('starttls', 'no_tls_verify'):
-        g = '%s::%s' % (st, name)
-        if name not in fields or g not in f.hir:
-            continue
+    g = '%s::starttls' % st
+    if 'starttls' in R.field and g in f.hir:
+        fld = ('field', SELF, R.field['starttls'])
+        ctx.add('W7.request-recorded', 'set_starttls', '', R.polarity_ok('starttls'), 'set_starttls(v) does not record v in a field of the settings')
+        want = fld if R.stored['starttls'][True] == ('lit', True) else ('not', fld)
         B = hirq.Body(f, f.body(g))
         ctx.analysed['bodies'].add(g)
         for o in absx.Interp(f, B).run():
             if o.kind not in ('val', 'ret'):
                 continue
             n += 1
-            ctx.add('W7.getter-returns-the-setting', name, loc(B.root), o.val == ('field', SELF, name),
-                    'LdapConnSettings::%s() returns %s, not the `%s` field set by its setter: what the caller requested is not what connection set-up sees' % (name, absx.fmt(o.val)[:40], name))
-    if 'starttls' in fields:
+            ctx.add('W7.getter-returns-the-setting', 'starttls', loc(B.root), o.val == want,
+                    'LdapConnSettings::starttls() returns %s, not what set_starttls recorded (%s): what the caller requested is not what connection set-up sees' % (absx.fmt(o.val)[:40], absx.fmt(want)))
+    if 'starttls' in R.field:
         ctx.floor('W7', 'paths of the TLS-relevant settings getters', n, 1)
 
 
-def check_other_constructors(ctx, f):
+def check_other_constructors(ctx, f, R):
     """W8: `set_starttls(true)` is a request for a protected session whatever the URL scheme.  Every constructor that can hand back a
     connection without TLS must have read the request and found it false on that path - otherwise it hands back a cleartext handle
     although protection was asked for.  The TCP constructor is decided by W1; this rule covers the remaining ones (the Unix-socket
     constructor)."""
-    SETT = ('param', 'settings')
     for p in sorted(q for q in f.hir if q.startswith('ldap3::conn::LdapConnAsync::new_') and q != NT and '{' not in q):
         it = f.items.get(p) or {}
         if not any('LdapConnSettings' in (x or '') for x in it.get('inputs') or []):
             continue
         B = hirq.Body(f, f.body(p))
         ctx.analysed['bodies'].add(p)
+        setts = [('param', x) for x in sem.params_of_type(f, B, IS_SETTINGS)]
         outs = absx.Interp(f, B, unroll=1).run(root=B.root['body'] if B.root['k'] == 'Closure' else B.root)
         oks = [o for o in outs if o.kind in ('val', 'ret') and o.val[0] == 'ctor' and o.val[1] == 'Ok']
         if not oks:
@@ -258,8 +353,10 @@ def check_other_constructors(ctx, f):
         for o in oks:
             asked = None
             for a, t in o.st.pc:
-                if (a[0] == 'call' and a[1].endswith('LdapConnSettings::starttls')) or a == ('field', SETT, 'starttls'):
+                if a[0] == 'call' and a[1].endswith('LdapConnSettings::starttls'):
                     asked = t
+                elif a[0] == 'field' and a[1] in setts and a[2] == R.field.get('starttls'):
+                    asked = R.requested('starttls', t)
             tls = any(e[0] == 'call' and e[1].endswith('::create_tls_stream') for e in o.st.ev)
             if not tls and asked is not False:
                 bad.append(o)
